@@ -231,6 +231,9 @@ def worker(job):
     try:
         text = open(path, errors="replace").read()
         ref = run_cfg(drv, path, "every", DEFAULT_MEM, timeout, max_steps)
+        if time.time() - t0 > 2.5 and tier == "thorough":
+            tier = "quick"          # a long-running program: fewer configurations
+            out["notes"].append("slow: reduced configuration set")
         if ref["kind"] in ("nocompile", "noprepare", "budget", "timeout"):
             out["skip"] = ref["kind"]
             out["runs"] += 1
@@ -531,10 +534,16 @@ def run(ctx):
 
     # one report per (program, kind); smallest programs first so the headline is readable
     viols.sort(key=lambda v: (len(v["program_text"]), v["program"]))
-    for v in viols[:40]:
-        report(ctx, v)
-    if len(viols) > 40:
-        ctx.notes["violations_not_listed"] = len(viols) - 40
+    kinds = {}
+    listed = 0
+    for v in viols:
+        kinds[v["kind"]] = kinds.get(v["kind"], 0) + 1
+        if kinds[v["kind"]] <= 15:      # up to 15 reports per kind (audit / outcome / crash)
+            report(ctx, v)
+            listed += 1
+    if viols:
+        ctx.notes["violations_by_kind"] = kinds
+        ctx.notes["violations_not_listed"] = len(viols) - listed
 
     ctx.coverage["model_tie"] = model_tie(ctx, lib) if time.time() < deadline + 20 else {
         "owner": "E1 / checks/c09.py", "rerun_here": "skipped: out of time"}
